@@ -25,6 +25,15 @@ Definition chain_expected c k defined elems := map (impl_of k) (filter (enabled 
 Fixpoint strs_eqb (a b : list string) : bool :=
   match a, b with [], [] => true | x :: a', y :: b' => String.eqb x y && strs_eqb a' b' | _, _ => false end.
 Definition spec_chain_ok c k defined elems (observed : list string) : bool := strs_eqb observed (chain_expected c k defined elems).
+Definition model_exec c defined chain fmt output := exec_calls c (cfg_of defined) chain fmt output.
+Definition exec_expected c defined chain fmt output :=
+  map (impl_of Filter) (filter (enabled (rc_flt c) (cfg_of defined)) chain)
+  ++ map (impl_of Datasource) (take_while (enabled (rc_ds c) (cfg_of defined)) fmt)
+  ++ (if enabled (rc_out c) (cfg_of defined) output then [impl_of Output output] else []).
+Definition spec_exec_ok c defined chain fmt output (observed : list string) : bool := strs_eqb observed (exec_expected c defined chain fmt output).
+(** threads formatting %{n} concurrently: what each must see *)
+Definition model_thread_expect c defined n : option string :=
+  match call (rc_sentinel c) (rc_ds c) (cfg_of defined) n with Called p => Some p | _ => None end.
 Definition model_fixed c k := fixed_names (reg_of c k).
 Definition model_all_names c k := map snd (body (reg_of c k)).
 
